@@ -357,11 +357,31 @@ def run_c04_ble(case, R):
             try:
                 if op == "add":
                     res = await p.add_pairing("other-controller", "07" * 32, "User")
+                elif case.get("via") == "controller":
+                    # the alias-level API of the aggregate controller: forgets the pairing, asks the accessory, shuts the pairing down
+                    from aiohomekit.characteristic_cache import CharacteristicCacheMemory
+                    from aiohomekit.controller import Controller
+                    ctl = Controller(char_cache=CharacteristicCacheMemory())
+                    for reg in (ctl, w.controller):
+                        reg.aliases["alias"] = p
+                        reg.pairings[p.id] = p
+                    await p.list_accessories_and_characteristics()          # connected, as a pairing in use is
+                    R.cls("ip-pairings:via-controller")
+                    await ctl.remove_pairing("alias")
+                    res = True
                 else:
                     res = await p.remove_pairing("other-controller")
                 outcome = ("ok", res)
             except Exception as e:  # noqa: BLE001
                 outcome = ("raise", e)
+            if case.get("via") == "controller":
+                # done or refused, the controller has forgotten the pairing: nothing of it may stay open or keep trying
+                await asyncio.sleep(90)
+                await vtime.settle(loop)
+                held = [c for c in w.acc.conns if not c.t.is_closing()]
+                if held or p.is_connected:
+                    R.fail("C11.open-after-close", f"{what}: Controller.remove_pairing ended with {outcome[0]}; the forgotten pairing still holds {len(held)} connection(s)", kind="remove_pairing")
+                    return
             if fired:
                 await asyncio.gather(fired[0], return_exceptions=True)
                 if not any(kind == "r" and iid_ == 4 for kind, iid_, _ in w.clients[0].log[fired[1]:]):
@@ -827,11 +847,31 @@ def run_c04_ip(case, R):
             try:
                 if op == "add":
                     res = await p.add_pairing("other-controller", "07" * 32, "User")
+                elif case.get("via") == "controller":
+                    # the alias-level API of the aggregate controller: forgets the pairing, asks the accessory, shuts the pairing down
+                    from aiohomekit.characteristic_cache import CharacteristicCacheMemory
+                    from aiohomekit.controller import Controller
+                    ctl = Controller(char_cache=CharacteristicCacheMemory())
+                    for reg in (ctl, w.controller):
+                        reg.aliases["alias"] = p
+                        reg.pairings[p.id] = p
+                    await p.list_accessories_and_characteristics()          # connected, as a pairing in use is
+                    R.cls("ip-pairings:via-controller")
+                    await ctl.remove_pairing("alias")
+                    res = True
                 else:
                     res = await p.remove_pairing("other-controller")
                 outcome = ("ok", res)
             except Exception as e:  # noqa: BLE001
                 outcome = ("raise", e)
+            if case.get("via") == "controller":
+                # done or refused, the controller has forgotten the pairing: nothing of it may stay open or keep trying
+                await asyncio.sleep(90)
+                await vtime.settle(loop)
+                held = [c for c in w.acc.conns if not c.t.is_closing()]
+                if held or p.is_connected:
+                    R.fail("C11.open-after-close", f"{what}: Controller.remove_pairing ended with {outcome[0]}; the forgotten pairing still holds {len(held)} connection(s)", kind="remove_pairing")
+                    return
             if control:
                 if outcome != ("ok", True):
                     R.fail("C04.control-cell-fails", f"{what}: {outcome!r:.200}", step="ip-" + op)
@@ -857,6 +897,8 @@ HTTP_CTYPES = {"exact": ("application/pairing+tlv8", "Content-Type"), "charset":
 def enum_c04_ip(tier):
     for c in enum_c04_ble(tier):
         yield c
+        if c["op"] == "remove" and not c["extra"] and c["order"] == "spec":
+            yield dict(c, via="controller")
         if c["err"] in ("2", "6", "1") and c["state"] in ("expected", "absent", "3") and not c["extra"] and c["order"] == "spec":
             for http in (200, 400, 470, 500):
                 for ct in HTTP_CTYPES:
